@@ -28,14 +28,24 @@ keyed by the protected construct, so a deleted guard is a violated instance (exi
      second time; sibling sub-builders are reset before another one is opened / used; end handlers reset every
      sub-builder before the object builder and commit afterwards                    -> F3 expected on the pristine tree
  A1  abort / terminate / exit call sites are the frozen who-may-call list
- A2  noexcept functions (incl. destructors) in the closure of the four parsers cannot let an exception out of their body
-     (that would be std::terminate on hostile input)
+
+Clauses of DESIGN.md section 5/C03 not implemented here, and why:
+ * STALE-L/F over parser and builder code: run by the C04 module (same engine, same functions); not duplicated.
+ * "the forked child in Reader::execute" is checked only as far as `exit` being guarded by `pid == 0`.
+ * G4 "before allocation": the decompressor's output.resize(raw_size) lives in zlib_uncompress_string / lz4_uncompress_string;
+   the rule protects the call that hands raw_size over, not the resize inside (one call level, same value).
+ * A general "noexcept function cannot leak" rule (beyond the expat boundary, G7) was tried and dropped: on the pristine tree it
+   reports the four sub-builder destructors (add_padding -> reserve_space -> buffer_is_full), which terminate only for a
+   non-growing full buffer -- a value argument about the reader's auto-grow buffers that this family cannot decide.
+ * assert()-only preconditions on input-derived lengths (e.g. set_user(const char*) asserting strlen < 2^16) abort in -UNDEBUG
+   builds; no structural rule decides which asserts are input-reachable.  Recorded as an observation only.
 
 Not decided (other technique families): absence of out-of-bounds accesses in general, protozero's own varint bounds,
 termination / hangs, equivalence of assert-on and NDEBUG builds, decompressor internals (C09), STALE-L/F (run by C04).
 """
 from ..c03_util import (classify_edges, upper_bound, lower_bound, equals, truthy, reaches_unchecked, describe, roots,
-                        local_roots, starts_for, definitions, elem_of, sig, var_name, cmp_parts, strip_not, CursorFlow, UNCHECKED)
+                        local_roots, starts_for, definitions, elem_of, sig, var_name, cmp_parts, strip_not, CursorFlow, UNCHECKED,
+                        helper_barriers, matching_conds, deep_roots)
 from ..excflow import Esc, catch_alls, handler_entry_block, must_pass
 from ..errdisc import guards
 from ..flow import path_search
@@ -237,7 +247,7 @@ def _g2_insert(fb, R, fn, c, F):
     starts = []
     for r in subj:
         starts += starts_for(fn, r[1])
-    w = reaches_unchecked(fn, starts, [c['id']], pe)
+    w = reaches_unchecked(fn, starts, [c['id']], pe, barriers=helper_barriers(fb, fn, subj, lambda isub: upper_bound(isub, _const_le(U16))))
     R.check(w is None, 'G2-stringtable-entry-length', key, fn.loc(c['id']),
             'a string-table entry is inserted without passing a length test (size > max_osm_string_length -> reject; the length is '
             'later narrowed to 16 bit): %s' % describe(fn, w))
@@ -274,7 +284,7 @@ def builder_append_sites(fb):
             rs = set()
             for a in c.get('args', []) or []:
                 if a is not None:
-                    rs |= local_roots(fn, a)
+                    rs |= deep_roots(fn, a)
             ps = [r[1] for r in rs if r[0] == 'var' and r[1] in pd]
             if not ps or len(ps) != len(rs):
                 continue        # fed from locals / fields: not a plain forwarding of caller data
@@ -295,7 +305,8 @@ def g3_builder_lengths(fb, R):
             if n.get('k') == 'cast' and n.get('toC') in ('unsigned short', 'osmium::string_size_type') and local_roots(fn, n['id']) & subj:
                 limit = U16 - 1
         pe = classify_edges(fn, upper_bound(_rooted_in(subj), _const_le(limit)))
-        w = reaches_unchecked(fn, ['entry'], [c['id']], pe)
+        w = reaches_unchecked(fn, ['entry'], [c['id']], pe,
+                              barriers=helper_barriers(fb, fn, subj, lambda isub, limit=limit: upper_bound(isub, _const_le(limit))))
         R.check(w is None, 'G3-builder-string-length-checked', key, fn.loc(c['id']),
                 '%s appends a caller-supplied string without first passing a length test against a bound <= %d on that string '
                 '(over-long input must throw std::length_error, not overflow the size field): %s' % (fn.q, limit, describe(fn, w)))
@@ -366,7 +377,8 @@ def g4_blobs(fb, R):
             n_b += 1
             d = list(vs)[0][1]
             up = classify_edges(fn, upper_bound(_rooted_in(vs), _const_le(max_blob)))
-            w = reaches_unchecked(fn, starts_for(fn, d), [c['id']], up)
+            w = reaches_unchecked(fn, starts_for(fn, d), [c['id']], up,
+                                  barriers=helper_barriers(fb, fn, vs, lambda isub: upper_bound(isub, _const_le(max_blob))))
             R.check(w is None, rule, fn.q + '#raw_size-upper-bound', fn.loc(c['id']),
                     'raw_size read from the file reaches %s (output.resize(raw_size)) without the test against max_uncompressed_blob_size: %s'
                     % (_method_name(c['q']), describe(fn, w)))
@@ -477,7 +489,7 @@ def g4_blobs(fb, R):
         if not uses:
             R.broken('read_from_input_queue_with_check: no allocation / fill driven by the size parameter found')
             continue
-        w = reaches_unchecked(fn, ['entry'], uses, pe)
+        w = reaches_unchecked(fn, ['entry'], uses, pe, barriers=helper_barriers(fb, fn, subj, lambda isub: upper_bound(isub, _const_le(max_blob))))
         R.check(w is None, rule, fn.q + '#blob-size-before-allocation', fn.site,
                 'blob size from the BlobHeader drives resize/append without the test against max_uncompressed_blob_size: %s' % describe(fn, w))
 
@@ -494,18 +506,7 @@ def _uses_of(fn, d, exclude_conds):
 
 
 def _matching_conds(fn, classify):
-    from ..errdisc import effective_cond
-    out = []
-    for blk in fn.blocks.values():
-        if 'cond' not in blk or len(blk['succs']) != 2 or blk.get('termcls') == 'SwitchStmt':
-            continue
-        c = effective_cond(fn, blk)
-        if c is None:
-            continue
-        inner, _pol = strip_not(fn, c)
-        if classify(fn, inner) is not None:
-            out.append(c)
-    return out
+    return matching_conds(fn, classify)
 
 
 def _is_ptr_t(t):
@@ -1793,7 +1794,8 @@ def run(ctx):
     R = ctx.R
     configs = ['ndebug14'] if ctx.tier == 'quick' else ['ndebug14', 'debug14', 'ndebug17', 'debug17']
     for cfg in configs:
-        fb = ctx.facts(['io_read', 'core'], cfg)
+        # the reader code is fully instantiated by io_read; `core` only adds builder / osm code the readers do not reach (more G8 sites)
+        fb = ctx.facts(['io_read'] if ctx.tier == 'quick' else ['io_read', 'core'], cfg)
         esc = Esc(fb)
         g1_g2_stringtable(fb, R, esc)
         g3_builder_lengths(fb, R)
